@@ -38,7 +38,11 @@
         non-shortest forms) and whose ParametersSha256DigestComponent is right, absent, wrong, cut, extended or doubled,
         delivered to handlers attached above them; Data / Nacks with such names delivered to Interests the application waits
         for; both with the library loggers silent and at DEBUG: reception returns normally, the Interest is handled by the
-        longest attached prefix once or dropped as its digest and validator say, nothing else is touched.
+        longest attached prefix once or dropped as its digest and validator say, nothing else is touched;
+      * the packet's name against the names in the tables (relation_family): Nack / Data / Interest named N (depth 0 = the empty
+        name .. 3) against every subset of {parent, N, N+1, N+2, sibling, elsewhere} pending and of {root, parent, N, N+1,
+        sibling, elsewhere} attached -- in particular tables where N is only an inner node (entries strictly below, nothing at
+        it): exactly the entries the packet addresses by name are completed / invoked, reception returns normally.
 """
 import asyncio
 import copy
@@ -64,7 +68,7 @@ RULE = ('(A) packet lists (types/lengths over all four var-number forms incl. no
         '(express, earlier Data / Nack / cancellation / expiry, Data under validation) into the state given by a word '
         'over {waiting, waiting with a foreign implicit digest, caller gives up in the loop turn of the packet, lifetime '
         'timer fires in the loop turn of the packet, given up / timed out / satisfied / nacked earlier, validator still '
-        'running, CanBePrefix parent waiting / given up in this turn, unrelated name}; several entries share the '
+        'running, CanBePrefix parent waiting / given up in this turn, unrelated name, a name strictly below the packet\'s}; several entries share the '
         'packet\'s name, in every order: all words of length <= 2 (thorough: 3) + sampled words of length 3-6, against '
         'Data (bare, in an LpPacket), Nack (with / without reason), Interest and dropped packets (cut, trailing byte, '
         'fragment-labelled), handed over awaited / as a task created in the turn of the cancellation / as a task created in '
@@ -124,10 +128,22 @@ RULE = ('(A) packet lists (types/lengths over all four var-number forms incl. no
         'each odd component the encoder accepts (and sampled runs of 2-4), closed by a plain component or not; the Data of that '
         'name (signed / unsigned; bare / LpPacket) or the Nack returning the very wire (reason 150 / absent) arrives: everybody '
         'waiting for that name ends with the Data / InterestNack, the prefix Interest with the Data, others are untouched and get '
-        'their own Data afterwards (an Interest ending in an ImplicitSha256 component of no digest\'s length is only judged on '
-        'Nacks: C03 owns digest matching).  Also: in the mutant-stream scenarios an Interest whose name no prefix can be '
+        'their own Data afterwards (beside an Interest ending in an EMPTY ImplicitSha256 component only "returns normally, no '
+        'unhandled error" is judged: both front-ends read an empty digest as no digest; C03 owns digest matching).  Also: in the mutant-stream scenarios an Interest whose name no prefix can be '
         'registered with as a whole (every parameterised / signed Interest) now finds a handler at its longest registrable '
         'leading part.  '
+        'The packet\'s name against the names in the tables (everything by construction, harness\'s own encoder): the packet -- Nack '
+        '(reason 150 / absent / 0 / 50), Data, Interest -- is named N of depth 0 (the EMPTY name), 1, 2, 3; the pending-Interest table '
+        'holds EVERY subset of {parent of N, N, N + 1 component, N + 2 components, a sibling of N, elsewhere} (CanBePrefix alternating, '
+        'sometimes two Interests at N), the handler table EVERY subset of {root, parent, N, N + 1 component, sibling, elsewhere}: '
+        'every pending subset with a rotating handler subset and every handler subset with a rotating pending subset, for each '
+        'front-end x packet kind x depth (thorough: + a quarter of all pairs); bare / LpPacket with PIT token, awaited / as a task.  In '
+        'particular tables in which the name of the packet is only an INNER node (entries strictly below it, nothing at it) and the '
+        'empty name, of which every entry is an extension.  Demanded: reception returns normally, no task ends with an unhandled error; '
+        'a Data completes exactly the Interests at N and the CanBePrefix Interests above it, a Nack exactly the Interests at N, an '
+        'Interest invokes exactly the longest attached prefix of N once; everything below, beside and elsewhere is untouched, nothing '
+        'is transmitted; afterwards every Interest still pending completes with its own Data and every handler serves an Interest '
+        'under its prefix.  '
         'non-trivial = stream/packet of >= 4 bytes; distinct by (part, input) hash')
 ASSUMPTIONS = [
     'asyncio.StreamReader.readexactly consumes nothing until n bytes are buffered; tasks start in creation order '
@@ -1013,8 +1029,8 @@ def oracle_receive(ctx, front, loop, origin, typ, w, action, npend, nhand):
 #   G  named N, given up earlier     X  named N, timed out earlier     D / Q  named N, satisfied / nacked earlier
 #   V  named N, satisfied earlier, its validator is still running
 #   P  named by the parent of N with CanBePrefix, waiting      p  the same, caller gives up in this loop turn
-#   U  another name, waiting
-STATE_KINDS = 'WHCTGXDQVPpU'
+#   U  another name, waiting                 B  named N + one more component (strictly BELOW the packet's name), waiting
+STATE_KINDS = 'WHCTGXDQVPpUB'
 T_LIFETIME = 1000       # ms, the T entries
 X_LIFETIME = 40         # ms, the X entries
 
@@ -1183,6 +1199,8 @@ def oracle_states(ctx, front, loop, origin, typ, w, action, word, mode):
                     express(k, nP, 60000, cbp=True)
             elif k == 'U':
                 express(k, nU, 60000)
+            elif k == 'B':
+                express(k, nN + [G.tlv(8, b'below')], 60000)
         for e in entries:
             if e['kind'] == 'G':
                 e['task'].cancel()
@@ -1270,7 +1288,7 @@ def oracle_states(ctx, front, loop, origin, typ, w, action, word, mode):
         return b''.join(nm).hex()
     for e in entries:
         k, o = e['kind'], outcome(e['task'])
-        if k in 'WHPU':
+        if k in 'WHPUB':
             if k == 'W':
                 addressed = action[0] in (2, 4)
             elif k == 'P':
@@ -1343,7 +1361,7 @@ def state_words(ctx):
     for n in range(1, (3 if ctx.thorough else 2) + 1):
         words += [''.join(t) for t in itertools.product(STATE_KINDS, repeat=n)]
     for _ in range(ctx.n(150, 3000)):
-        words.append(''.join(rng.choice('WWWCCTTHGXDQVPpU') for _ in range(rng.randint(3, 6))))
+        words.append(''.join(rng.choice('WWWCCTTHGXDQVPpUBB') for _ in range(rng.randint(3, 6))))
     return words
 
 
@@ -2401,6 +2419,7 @@ def oddname_pending_scenario(ctx, front, loop, M, sp):
     """sp: {'prefix', 'tail': [odd labels], 'close': bool (a plain last component follows), 'packet': 'data' | 'data-unsigned' |
     'nack' | 'nack-noreason', 'table': word over W (waits for the name) / P (waits for the prefix, CanBePrefix) / U (another name), 'env',
     'mode', 'log'}"""
+    import hashlib
     from ndn.encoding import Name
     from ndn.types import InterestNack
     ver = front.ver
@@ -2419,6 +2438,7 @@ def oddname_pending_scenario(ctx, front, loop, M, sp):
         ctx.stat('oddname.pending.not-expressible')
         return
     implicit = nN[-1][:1] == b'\x01'            # the last component is an implicit digest: the Data is named by the rest
+    implicit0 = implicit and len(nN[-1]) == 2   # ... with an EMPTY value: both front-ends take it for "no digest" (docs/C06.md)
     app = front.new_app()
     loop.errors.clear()
 
@@ -2531,11 +2551,12 @@ def oddname_pending_scenario(ctx, front, loop, M, sp):
                 return ('nack', e.reason)
             return (exc_class(e),)
         for e, b4 in zip(entries, before):
+            if implicit0:
+                break           # whom a packet addresses beside an Interest ending in an empty implicit digest is C03's business
             if action[0] == 4:
                 if e['kind'] == 'W':
-                    if implicit:
-                        continue        # whether a Data matches an implicit digest of no digest's length is C03's business
-                    addressed = pkt_name == nN
+                    addressed = (pkt_name == nN and not implicit) or \
+                        (implicit and pkt_name == nN[:-1] and G.tlv(1, hashlib.sha256(inner).digest()) == nN[-1])
                 elif e['kind'] == 'P':
                     addressed = pkt_name[:len(e['name'])] == e['name']
                 else:
@@ -2636,6 +2657,255 @@ def oddname_family(ctx, fronts, loop, M):
                     tick()
 
 
+# ---- the packet's name against the names in the tables: above, at, below, beside, elsewhere; the empty name -------------
+# Both tables are tries keyed by name components.  The families above put entries AT the packet's name, at its parent
+# (CanBePrefix), and under unrelated names -- never strictly BELOW it, so a packet never met a table in which its name is only
+# an inner node (something pending / attached under a longer name, nothing at the name itself), and never carried the empty
+# name `/`, of which every entry is an extension.  Here the packet (Nack, Data, Interest) is named N of depth 0-3 and each table
+# holds a subset of {parent of N, N, N + 1 component, N + 2 components, a sibling, elsewhere} (handlers: also the root).
+REL_PENDING = ('parent', 'at', 'below1', 'below2', 'sibling', 'other')
+REL_HANDLERS = ('root', 'parent', 'at', 'below1', 'sibling', 'other')
+REL_PACKETS = ('nack', 'data', 'interest')
+REL_REASONS = (150, None, 0, 50)
+
+
+def rel_names(depth):
+    """relation -> name (component list) relative to the packet's name N of that depth; None where there is no such name"""
+    c = lambda x: G.tlv(8, x)   # noqa
+    nN = [c(b'rel'), c(b'a'), c(b'b')][:depth]
+    return nN, {'root': [], 'parent': nN[:-1] if depth >= 2 else None, 'at': list(nN) if depth >= 1 else None,
+                'below1': nN + [c(b'x')], 'below2': nN + [c(b'x'), c(b'y')],
+                'sibling': nN[:-1] + [c(b'sib')] if depth >= 1 else None, 'other': [c(b'elsewhere'), c(b'o')]}
+
+
+def relation_scenario(ctx, front, loop, M, sp):
+    """sp: {'depth', 'packet', 'pending': [[relation, CanBePrefix]...], 'handlers': [relation...], 'reason', 'lp', 'mode'}"""
+    from ndn.types import InterestNack
+    ver = front.ver
+    site = f'appv{ver}._receive'
+    VR = getattr(front.mod, 'ValidResult', None)
+    nN, names = rel_names(sp['depth'])
+    app = front.new_app()
+    case = {'front': ver, 'relation': dict(sp), 'name': b''.join(nN)}
+    loop.errors.clear()
+
+    async def ok2(name, sig, context):
+        return VR.PASS
+
+    async def ok1(name, sig):
+        return True
+    hits = {}
+    entries = []
+
+    def finish():
+        for e in entries:
+            if not e['task'].done():
+                e['task'].cancel()
+        loop.settle()
+        retrieve([e['task'] for e in entries])
+        loop.collect_errors()
+        loop.errors.clear()
+
+    def is_prefix(a, b):
+        return len(a) <= len(b) and b[:len(a)] == a
+    try:
+        for rel in sp['handlers']:
+            if names.get(rel) is None or rel in hits or any(names[rel] == names[q] for q in hits):
+                continue
+            hits[rel] = []
+            if ver == 2:
+                def h(name, app_param, reply, context, rel=rel):
+                    hits[rel].append([bytes(c) for c in name])
+                app.attach_handler(list(names[rel]), h, ok2)
+            else:
+                def h(name, param, app_param, rel=rel):
+                    hits[rel].append([bytes(c) for c in name])
+                app.set_interest_filter(list(names[rel]), h, ok1)
+        for rel, cbp in sp['pending']:
+            if names.get(rel) is None:
+                continue
+
+            async def go(nm=names[rel], cbp=cbp):
+                if ver == 2:
+                    co = app.express(list(nm), ok2, lifetime=60000, can_be_prefix=bool(cbp), nonce=len(entries) + 1)
+                else:
+                    co = app.express_interest(list(nm), validator=ok1, lifetime=60000, can_be_prefix=bool(cbp), nonce=len(entries) + 1)
+                return loop.create_task(co)
+            n0 = len(app.face.sent)
+            t = loop.run_until_complete(go())
+            loop.settle()
+            entries.append({'rel': rel, 'name': list(names[rel]), 'cbp': bool(cbp), 'task': t,
+                            'wire': app.face.sent[n0] if len(app.face.sent) > n0 else None})
+    except Exception as e:   # noqa
+        ctx.violation(site, f'history-raises:{exc_class(e)}', f'building the tables raised {e!r}', case)
+        finish()
+        return
+    for e in entries:
+        if e['task'].done():
+            ctx.violation(site, 'history-outcome', f'the Interest {e["rel"]} ended while it was being expressed', case)
+            finish()
+            return
+    # -- the packet, by the harness's own encoder
+    pk = sp['packet']
+    reason = sp['reason']
+    mine = [e for e in entries if e['rel'] == 'at' and e['wire'] is not None]
+    if pk == 'nack':
+        inter = bytes(mine[0]['wire']) if mine else G.tlv(5, G.tlv(7, b''.join(nN)) + G.tlv(0x0a, b'\x01\x02\x03\x04') + G.tlv(0x0c, b'\x0f\xa0'))
+        typ, w = 0x64, G.tlv(0x64, (G.tlv(0x62, b'\x0a\x0b') if sp['lp'] else b'')
+                             + G.tlv(0x0320, b'' if reason is None else G.tlv(0x0321, bytes([reason]))) + G.tlv(0x50, inter))
+    else:
+        inner = on_build_data(nN, b'rel', signed=False) if pk == 'data' else \
+            G.tlv(5, G.tlv(7, b''.join(nN)) + G.tlv(0x0a, b'\x01\x02\x03\x04') + G.tlv(0x0c, b'\x0f\xa0'))
+        typ, w = on_envelope('lp-token' if sp['lp'] else 'bare', inner)
+    case['typ'], case['wire'] = typ, w
+    action = classify_action(M, front, loop, typ, w, 'relation')
+    kind = {'nack': 2, 'data': 4, 'interest': 3}[pk]
+    if sp['depth'] >= 1 and pk == 'nack':
+        action = [2, list(nN), (0 if front.nd is None else front.nd) if reason is None else reason]     # a Nack by construction
+    if action[0] == kind and [bytes(c) for c in action[1]] != nN:
+        ctx.disagree(site, 'the name read from a packet the harness built is not the name it was built with', case, action, nN)
+        finish()
+        return
+    if sp['depth'] >= 1 and action[0] != kind:
+        ctx.disagree(site, f'a well-formed {pk} the harness built is not classified as one', case, action, kind)
+        finish()
+        return
+    accepted = action[0] == kind        # (the empty name: whether the decoders take it at all is C07's; what follows is ours)
+    sent0 = len(app.face.sent)
+    before = [e['task'].done() for e in entries]
+    exc = None
+    if sp['mode'] == 'await':
+        async def go_await():
+            try:
+                await app._receive(typ, w)
+                return None
+            except Exception as e:   # noqa
+                return e
+        exc = loop.run_until_complete(go_await())
+        loop.settle()
+    else:
+        async def go_task():
+            return loop.create_task(app._receive(typ, w))
+        rx = loop.run_until_complete(go_task())
+        loop.settle()
+        if not rx.done():
+            ctx.violation(site, 'reception-does-not-return', 'the reception task is still running at quiescence', case)
+            rx.cancel()
+            loop.settle()
+        elif not rx.cancelled():
+            exc = rx.exception()
+    where = {0: 'decode', 1: 'decode', 2: '_on_nack', 3: '_on_interest', 4: '_on_data'}[action[0]]
+    table = ','.join(f'{e["rel"]}{"*" if e["cbp"] else ""}' for e in entries) or 'empty'
+    what = f'{pk} named {"/" if not nN else b"/".join(c[2:] for c in nN).decode()} (pending: {table}; handlers: {",".join(hits) or "none"})'
+    if exc is not None:
+        ctx.violation(site, f'raises:{exc_class(exc)}:{where}', f'_receive raised {type(exc).__name__} ({str(exc)[:80]}) on a {what}', case)
+
+    def outcome(t):
+        if not t.done():
+            return ('pending',)
+        if t.cancelled():
+            return ('CancelledError',)
+        e = t.exception()
+        if e is None:
+            r = t.result()
+            content = r[1] if ver == 2 else r[2]
+            return ('data', [bytes(c) for c in r[0]], None if content is None else bytes(content))
+        if isinstance(e, InterestNack):
+            return ('nack', e.reason)
+        return (exc_class(e),)
+    # -- who is addressed, by name
+    for e, b4 in zip(entries, before):
+        if accepted and pk == 'data':
+            addressed = e['name'] == nN or (e['cbp'] and is_prefix(e['name'], nN))
+            want = ('data', nN, b'rel')
+        elif accepted and pk == 'nack':
+            addressed = e['name'] == nN
+            want = ('nack', action[2])
+        else:
+            addressed, want = False, None
+        o = outcome(e['task'])
+        if addressed:
+            if o != want and not (want[0] == 'nack' and reason is None and o[0] == 'nack' and o[1] in (None, 0)):
+                ctx.violation(site, 'pending-interest-not-completed',
+                              f'the Interest {e["rel"]}{"*" if e["cbp"] else ""} is addressed by the {what}; expected {want!r:.60}, it is {o!r:.60}', case)
+        elif o != ('pending',):
+            ctx.violation(site, 'pending-interest-disturbed',
+                          f'the Interest {e["rel"]}{"*" if e["cbp"] else ""} is not addressed by the {what} and ended with {o!r:.60}', case)
+    att = [k for k in hits if is_prefix(names[k], nN)]
+    best = max(att, key=lambda k: len(names[k])) if att else None
+    for k in hits:
+        want_n = 1 if (accepted and pk == 'interest' and k == best) else 0
+        if len(hits[k]) != want_n:
+            cls = 'handler-disturbed' if len(hits[k]) > want_n else 'interest-not-delivered'
+            ctx.violation(site, cls, f'the handler at {k} was invoked {len(hits[k])} time(s) by the {what}; expected {want_n}', case)
+    if len(app.face.sent) != sent0:
+        ctx.violation(site, 'packet-caused-transmission', f'something was transmitted in response to the {what}', case)
+    # -- aftermath: whoever still waits gets its own Data (shorter names first: a Data also satisfies the CanBePrefix Interests
+    #    above it, which are then served already); every handler still serves the Interests under its prefix
+    for e in sorted(entries, key=lambda e: len(e['name'])):
+        if e['task'].done():
+            continue
+        try:
+            loop.run_until_complete(app._receive(6, on_build_data(e['name'], b'after', signed=False)))
+            loop.settle()
+            o = outcome(e['task'])
+        except Exception as e2:   # noqa
+            o = ('reception raised ' + exc_class(e2),)
+        if o != ('data', e['name'], b'after'):
+            ctx.violation(site, 'pending-interest-lost', f'the Interest {e["rel"]} does not complete with its Data after the {what} ({o!r:.80})', case)
+    for k in hits:
+        for q in hits:
+            hits[q].clear()
+        iw = G.tlv(5, G.tlv(7, b''.join(names[k] + [G.tlv(8, b'probe')])) + G.tlv(0x0a, b'\x09\x09\x09\x09'))
+        try:
+            loop.run_until_complete(app._receive(5, iw))
+            loop.settle()
+        except Exception as e2:   # noqa
+            ctx.violation(site, f'aftermath-error:{exc_class(e2)}', f'an Interest for the handler at {k} raised {e2!r} after the {what}', case)
+        for q in hits:
+            if len(hits[q]) != (1 if q == k else 0):
+                ctx.violation(site, 'handler-lost' if q == k else 'handler-disturbed',
+                              f'after the {what} an Interest under {k} invoked the handler at {q} {len(hits[q])} time(s)', case)
+    errs = loop.collect_errors()
+    loop.errors.clear()
+    if errs:
+        e = errs[0].get('exception')
+        ctx.violation(site, f'loop-error:{exc_class(e) if e is not None else "none"}',
+                      f'a background task ended with an unhandled error ({what}): {errs[0].get("message")} {e!r}', case)
+    finish()
+    rels = {e['rel'] for e in entries}
+    shape = 'empty' if not rels else ('only-below' if rels <= {'below1', 'below2'} else ('at' if 'at' in rels else 'mixed'))
+    ctx.case(('rel', ver, repr(sorted(case['relation'].items()))), True, case,
+             f'recv.v{ver}.relation.{pk}.depth{sp["depth"]}.{shape}.{["drop", "raise", "nack", "interest", "data"][action[0]]}')
+
+
+def relation_family(ctx, fronts, loop, M):
+    """front-end x packet kind x depth of the packet's name (0 = the empty name) x EVERY subset of the pending relations (handler
+    subset rotating) and EVERY subset of the handler relations (pending subset rotating); CanBePrefix, reason form, LpPacket
+    envelope and hand-over rotate (thorough: every pending subset x every handler subset once more, sampled rotations)"""
+    import itertools
+    rng = ctx.rng
+    psubs = [list(c) for n in range(len(REL_PENDING) + 1) for c in itertools.combinations(REL_PENDING, n)]
+    hsubs = [list(c) for n in range(len(REL_HANDLERS) + 1) for c in itertools.combinations(REL_HANDLERS, n)]
+    i = 0
+    for f in fronts:
+        for pk in REL_PACKETS:
+            for depth in (0, 1, 2, 3):
+                pairs = [(ps, hsubs[(7 * j + 3) % len(hsubs)]) for j, ps in enumerate(psubs)] + \
+                        [(psubs[(11 * j + 5) % len(psubs)], hs) for j, hs in enumerate(hsubs)]
+                if ctx.thorough:
+                    pairs += [(ps, hs) for ps in psubs for hs in hsubs if rng.random() < 0.25]
+                for ps, hs in pairs:
+                    i += 1
+                    sp = {'depth': depth, 'packet': pk, 'handlers': hs,
+                          'pending': [[r, (i + j) % 2] for j, r in enumerate(ps)] + ([['at', i % 2 == 0]] if 'at' in ps and i % 3 == 0 else []),
+                          'reason': REL_REASONS[i % 4], 'lp': (i // 2) % 2 == 1, 'mode': ('task', 'await')[(i // 3) % 2]}
+                    relation_scenario(ctx, f, loop, M, sp)
+                    if i % 400 == 1:
+                        gc.collect()
+                        gc.freeze()
+
+
 def retrieve(tasks):
     """the harness is done with these tasks: an outcome nobody looked at (InterestCanceled of an Interest the harness
     itself cancelled ...) must not show up as "Task exception was never retrieved" in a LATER scenario on this loop"""
@@ -2714,7 +2984,7 @@ def part_receive(ctx, only=None):
                     oracle_receive(ctx, f, loop, origin, typ, w, a, rng.randint(0, 4), rng.randint(0, 3))
                     # the same packet against a table brought into a random reachable state
                     if rng.random() < (0.35 if a[0] in (2, 3, 4) else 0.08):
-                        word = ''.join(rng.choice('WWWCCTTHGXDQVPpU') for _ in range(rng.randint(1, 5)))
+                        word = ''.join(rng.choice('WWWCCTTHGXDQVPpUBB') for _ in range(rng.randint(1, 5)))
                         oracle_states(ctx, f, loop, origin, typ, w, a, word, rng.choice(['await', 'task']))
                 ctx.case(('r', f.ver, typ, w), len(w) >= 4, case if a[0] != 0 else None,
                          f'recv.v{f.ver}.{origin.split(".")[0]}.{["drop", "raise", "nack", "interest", "data"][a[0]]}')
@@ -2739,6 +3009,10 @@ def part_receive(ctx, only=None):
                     for f in fronts:
                         oddname_pending_scenario(ctx, f, loop, M, w)
                     continue
+                if typ == 'relation':
+                    for f in fronts:
+                        relation_scenario(ctx, f, loop, M, w)
+                    continue
                 origin = tbl[2] if len(tbl) > 2 and tbl[2] in BUILT_NACKS else 'replay'
                 if tbl and tbl[0]:
                     # a stored table scenario: the same state word and hand-over mode, both front-ends
@@ -2756,6 +3030,8 @@ def part_receive(ctx, only=None):
         judged_family(ctx, fronts, loop, M)
         # names with odd components: honest Interests against handlers, Data / Nacks against waiting Interests
         oddname_family(ctx, fronts, loop, M)
+        # the packet's name above / at / below / beside the names in both tables; the empty name
+        relation_family(ctx, fronts, loop, M)
         # ordinary packets against every small state of the pending-Interest table (and sampled larger ones)
         for wi, word in enumerate(state_words(ctx)):
             pk = table_packets(ctx, wi)
@@ -2832,6 +3108,8 @@ def replay(ctx, data):
         part_receive(ctx, only=[('oddname', case['oddname'])])
     elif 'oddpend' in case:
         part_receive(ctx, only=[('oddpend', case['oddpend'])])
+    elif 'relation' in case:
+        part_receive(ctx, only=[('relation', case['relation'])])
     elif 'wire' in case:
         part_receive(ctx, only=[(case['typ'], case['wire'], case.get('table'), case.get('mode', 'task'), case.get('origin'))])
     else:
